@@ -70,11 +70,15 @@ impl LogicalLineFileFormatter for OptimisingLineFormatter {
             child_line_cache: Default::default(),
         };
 
-        for line in input
-            .iter()
-            .enumerate()
-            .filter(|(_, line)| line.get_parent().is_none() && line.get_line_type() != LLT::Eof)
-        {
+        for line in input.iter().enumerate().filter(|(_, line)| {
+            // A child line whose parent was voided (all of its tokens are ignored) is never
+            // reached through the parent, so it is formatted as a line of its own.
+            line.get_parent().is_none_or(|parent| {
+                input
+                    .get(parent.line_index)
+                    .is_none_or(|parent_line| parent_line.get_line_type() == LLT::Voided)
+            }) && line.get_line_type() != LLT::Eof
+        }) {
             if let Some(solution) = olf.format_line(line) {
                 olf.reconstruct_solution(&solution, line.1);
             }
@@ -120,8 +124,13 @@ impl LogicalLineFileFormatter for OptimisingLineFormatter {
                 }
                 // Need to reflow the line now that the strings have been changed.
                 // All line-wrapping starts from the top-level parent line, though.
-                while let Some(parent) = line.1.get_parent() {
-                    line = (parent.line_index, &input[parent.line_index]);
+                while let Some((parent_index, parent_line)) = line
+                    .1
+                    .get_parent()
+                    .and_then(|parent| Some((parent.line_index, input.get(parent.line_index)?)))
+                    .filter(|(_, parent_line)| parent_line.get_line_type() != LLT::Voided)
+                {
+                    line = (parent_index, parent_line);
                 }
 
                 lines_to_reflow.push(line);
